@@ -26,13 +26,13 @@ def split_functions(text, shell):
     lines = text.split('\n')
     i = 0
     if shell in ('bash', 'zsh'):
-        start = re.compile(r'^([A-Za-z_][A-Za-z0-9_]*) \(\) \{\s*$')
+        start = re.compile(r'^([^\s(){}]+) \(\) \{\s*$')
         end = '}'
     elif shell == 'fish':
-        start = re.compile(r'^function ([A-Za-z_][A-Za-z0-9_]*)\s*$')
+        start = re.compile(r'^function ([^\s(){}]+)\s*$')
         end = 'end'
     else:
-        start = re.compile(r'^function ([A-Za-z_][A-Za-z0-9_]*) \{\s*$')
+        start = re.compile(r'^function ([^\s(){}]+) \{\s*$')
         end = '}'
     while i < len(lines):
         m = start.match(lines[i])
@@ -436,6 +436,22 @@ def decode_script(text, shell, command):
     funcs, top = split_functions(text, shell)
     res = {'commands': {}, 'subwords': {}, 'main': None, 'registration': False, 'sub_start': None}
     fn = '_%s' % command
+    if fn not in funcs:
+        # the completion function is the one the script registers, whatever it is called; whether it is registered for the
+        # grammar's command name is decided below
+        for l in top:
+            m = None
+            if shell == 'bash':
+                m = re.fullmatch(r'complete (?:-o \S+ )*-F (\S+) (\S+)', l.strip())
+            elif shell == 'zsh':
+                m = re.fullmatch(r'compdef (\S+) (\S+)', l.strip())
+            elif shell == 'fish':
+                m = re.fullmatch(r'complete --command (\S+) .*--arguments "\((\S+)\)"', l.strip())
+                if m:
+                    m = type('M', (), {'group': lambda self, i, _m=m: _m.group(2 if i == 1 else 1)})()
+            if m and m.group(1) in funcs:
+                fn = m.group(1)
+                break
     for name, body in funcs.items():
         m = re.fullmatch(re.escape(fn) + r'_cmd_(\d+)', name)
         if m:
